@@ -47,6 +47,7 @@ pub fn expected_probes(prop: &str) -> Vec<&'static str> {
             "stop-repeated",
             "drop-receiver",
             "drop-sender",
+            "stall-receiver",
             "go-on-terminal-position",
         ],
         "C06" => vec!["multi-worker-iteration"],
@@ -109,7 +110,7 @@ fn default_runs(prop: &str, thorough: bool) -> u64 {
         "C04" => (4_000, 80_000),
         "C06" => (12_000, 300_000),
         "C07" => (2_500, 60_000),
-        "C14" => (3_500, 60_000),
+        "C14" => (2_500, 60_000),
         "C17" => (6_000, 120_000),
         "C18" => (1_200, 30_000),
         "C19" => (6_000, 200_000),
